@@ -185,3 +185,81 @@ impl DiffableStr for CiStr {
         &self.0
     }
 }
+
+/// A third user-defined text type: TAGGED text. The first byte of every token is a non-printing tag (a style, a speaker, a
+/// column) that takes part in `==`, `Ord` and `Hash` but is NOT part of what `as_bytes` renders. Equality is therefore
+/// STRICTER than equality of the rendered bytes: two tokens may print alike and still differ. Whatever identifies tokens by
+/// `as_bytes()` instead of by `==` pairs unequal tokens here.
+#[repr(transparent)]
+#[derive(PartialEq, Eq, PartialOrd, Ord, Hash, Debug)]
+pub struct TStr([u8]);
+
+#[derive(PartialEq, Eq, PartialOrd, Ord, Hash, Debug, Clone)]
+pub struct TString(Vec<u8>);
+
+impl TStr {
+    pub fn new(b: &[u8]) -> &TStr {
+        // SAFETY: `TStr` is `repr(transparent)` over `[u8]`
+        unsafe { &*(b as *const [u8] as *const TStr) }
+    }
+    pub fn bytes(&self) -> &[u8] {
+        &self.0
+    }
+}
+impl Borrow<TStr> for TString {
+    fn borrow(&self) -> &TStr {
+        TStr::new(&self.0)
+    }
+}
+impl ToOwned for TStr {
+    type Owned = TString;
+    fn to_owned(&self) -> TString {
+        TString(self.0.to_vec())
+    }
+}
+fn wrap_t(v: Vec<&[u8]>) -> Vec<&TStr> {
+    v.into_iter().map(TStr::new).collect()
+}
+impl DiffableStr for TStr {
+    fn tokenize_lines(&self) -> Vec<&Self> {
+        wrap_t(self.0.tokenize_lines())
+    }
+    fn tokenize_lines_and_newlines(&self) -> Vec<&Self> {
+        wrap_t(self.0.tokenize_lines_and_newlines())
+    }
+    fn tokenize_words(&self) -> Vec<&Self> {
+        wrap_t(self.0.tokenize_words())
+    }
+    fn tokenize_chars(&self) -> Vec<&Self> {
+        wrap_t(self.0.tokenize_chars())
+    }
+    fn tokenize_unicode_words(&self) -> Vec<&Self> {
+        wrap_t(self.0.tokenize_unicode_words())
+    }
+    fn tokenize_graphemes(&self) -> Vec<&Self> {
+        wrap_t(self.0.tokenize_graphemes())
+    }
+    fn as_str(&self) -> Option<&str> {
+        std::str::from_utf8(self.as_bytes()).ok()
+    }
+    fn to_string_lossy(&self) -> Cow<'_, str> {
+        String::from_utf8_lossy(self.as_bytes())
+    }
+    fn ends_with_newline(&self) -> bool {
+        self.0.ends_with_newline()
+    }
+    fn len(&self) -> usize {
+        self.0.len()
+    }
+    fn slice(&self, rng: Range<usize>) -> &Self {
+        TStr::new(&self.0[rng])
+    }
+    /// the rendered bytes: everything after the tag
+    fn as_bytes(&self) -> &[u8] {
+        if self.0.len() > 1 {
+            &self.0[1..]
+        } else {
+            &self.0
+        }
+    }
+}
